@@ -156,7 +156,7 @@ func (x *Exec) doProbe(op *Op) {
 	}
 	// import into a fresh chain and export again
 	fresh := NewHost(&Config{NAccounts: 0, InitialHeight: 1, GenesisTime: x.cfg.GenesisTime, MaxRequestTimeout: 100, MinDepositMultiple: 1, MinDeposit: 1,
-		ServiceFeeTax: "0", SlashFraction: "0", ArbitrationNs: 1, ComplaintNs: 1})
+		ServiceFeeTax: "0", SlashFraction: "0", ArbitrationNs: 1, ComplaintNs: 1, MultiToken: x.cfg.MultiToken, Rates: x.H().rates})
 	fctx := fresh.Ctx()
 	if p, _ := guard(func() { service.InitGenesis(fctx, fresh.app.ServiceKeeper, gs2) }); p != "" {
 		x.viol("C19", "import_panic", "InitGenesis of the exported genesis panicked: "+p, attrs)
@@ -292,8 +292,8 @@ func (x *Exec) doExportContinue(op *Op) {
 	if exportCtxRules(x, pre, mid, "in the state prepared for the zero-height export"); x.stopped {
 		return
 	}
-	nh := &Host{cfg: h.cfg, db: dbm.NewMemDB(), chain: h.chain, generation: h.generation + 1}
-	nh.app = newApp(nh.db)
+	nh := &Host{cfg: h.cfg, db: dbm.NewMemDB(), chain: h.chain, generation: h.generation + 1, rates: copyRates(h.rates)}
+	nh.app = newApp(nh.db, h.cfg.MultiToken)
 	nh.registerForeign()
 	p, fromSvc = guard(func() { nh.initChain(appState, 1, h.Time()) })
 	if p != "" {
